@@ -120,6 +120,31 @@ def judge(case):
         if st2 != "ok" or not core.bit_eq(float(got2.value), val):
             v.append(core.viol("C12/depends_on_earlier_queries", "T=%r: a fresh membrane object answers %r, the same membrane after four other queries answers %r" % (
                 t, val, got2 if st2 != "ok" else float(got2.value))))
+    # "of its experiments": the membrane's experiment list edited AFTER it has been queried (an experiment appended in place; the
+    # experiments object replaced) must answer like a fresh membrane holding the edited list
+    if not v and t not in temps:
+        for how in ("append_in_place", "replace_object"):
+            _c, _o, _t, e3, mem3 = build(case)
+            e3 = list(e3)  # the membrane holds the very list build() returned
+            core.call(mem3.get_permeance, t, comp)
+            core.call(mem3.calculate_activation_energy, comp)
+            extra = U.IdealExperiment(name="x", temperature=t, component=comp, permeance=U.Permeance(value=0.4321),
+                                      activation_energy=(ea if case["stated"] else None))
+            if how == "append_in_place":
+                mem3.ideal_experiments.experiments.append(extra)
+            else:
+                mem3.ideal_experiments = U.IdealExperiments(experiments=e3 + [extra])
+            fresh = U.Membrane(name="M", ideal_experiments=U.IdealExperiments(experiments=e3 + [extra]))
+            tq = [t, t + 0.8]
+            for t_ in tq:
+                sa, ga = core.call(mem3.get_permeance, t_, comp)
+                sb, gb = core.call(fresh.get_permeance, t_, comp)
+                if (sa == "ok") != (sb == "ok") or (sa == "ok" and not core.bit_eq(float(ga.value), float(gb.value))):
+                    v.append(core.viol("C12/stale_after_experiments_edited", "experiments %s after a query: T=%r answers %r, a fresh membrane with the same experiments answers %r" % (
+                        how, t_, ga if sa != "ok" else float(ga.value), gb if sb != "ok" else float(gb.value))))
+                    break
+            if v:
+                break
     # selectivity and pure-component flux
     if not v:
         st1, sm = core.call(mem.get_ideal_selectivity, 303.0 if False else t, comp, other, "molar")
